@@ -222,3 +222,15 @@ def run(ctx):
         wp = list(b.calls_to(r"^writers::write_prepare_ok$"))
         ok = len(wp) == 1 and T.is_param(b.arg_origin(wp[0][0], 0), 2)
         ctx.ob("C10.fresh-on-prepare", ok, "the statement id sent in PREPARE_OK is not the id registered", fn=b.path, construct="reply-id")
+        # ... and every id announced is registered: no path reaches the PREPARE_OK writer without the insert (a statement the client
+        # was told about but the registry does not know can be neither executed nor closed)
+        if len(wp) == 1:
+            from engines.paths import enumerate_paths as _ep
+            nskip = npaths_ = 0
+            for p_ in _ep(b):
+                if wp[0][0] in p_.blocks:
+                    npaths_ += 1
+                    if bb not in p_.blocks[:p_.blocks.index(wp[0][0])]:
+                        nskip += 1
+            ctx.ob("C10.fresh-on-prepare", npaths_ >= 1 and nskip == 0, "reply() announces a statement on %d of %d paths without registering it first" % (nskip, npaths_), fn=b.path,
+                   construct="insert-before-announce", where=b.where(wp[0][0]))
